@@ -664,6 +664,9 @@ def wiring(rep, meta, f, sfx):
             if kind(n) == "Match" and PEXPR in n.get("sty", ""):
                 for arm in n["arms"]:
                     seen |= set(v.split("::")[-1] for v in hirq.pat_variants(arm["pat"]))
+            # the same selection as `if let` / `let .. else` / `matches!`
+            if n.get("k") in ("Let", "LetExpr") and isinstance(n.get("pat"), dict):
+                seen |= set(str(v).split("::")[-1] for v in hirq.pat_variants(n["pat"]) if str(v).startswith(PEXPR + "::"))
         for v in ("Rep", "RepOnce", "RepMin"):
             r.instance("unbounded:" + v, where(vr["body"]))
             if v not in seen:
